@@ -15,6 +15,7 @@ import sys, os, subprocess, tempfile, argparse, json
 ap = argparse.ArgumentParser()
 ap.add_argument('patch'); ap.add_argument('demo'); ap.add_argument('props', nargs='+')
 ap.add_argument('--tier', default='quick')
+ap.add_argument('--tests', action='store_true', help='also run the repository test suite on the patched tree')
 a = ap.parse_args()
 wt = tempfile.mkdtemp(prefix='wt_seed_'); os.rmdir(wt)
 subprocess.check_call(['git', '-C', '/repo', 'worktree', 'add', '-q', '--detach', wt, 'HEAD'])
@@ -30,6 +31,10 @@ try:
     r1 = subprocess.run(['/venv/bin/python', os.path.abspath(a.demo)], cwd=wt, env=env, capture_output=True, text=True, timeout=600)
     out['demo_patched_exit'] = r1.returncode
     out['demo_patched_tail'] = (r1.stdout + r1.stderr)[-400:]
+    if a.tests:
+        rt = subprocess.run(['/verif/tools/run_repo_tests.sh', wt], capture_output=True, text=True)
+        out['repo_tests_exit'] = rt.returncode
+        out['repo_tests_tail'] = rt.stdout[-600:]
     out['checks'] = {}
     for p in a.props:
         env2 = dict(os.environ, PYWBEM_REPO=wt)
